@@ -32,8 +32,14 @@ type c11Universe struct {
 var c11U1 = c11Universe{"u1", []ref.Value{ref.Int(1), ref.Int(2), ref.Float(2.5), ref.Str("a"), ref.Bool(true), ref.Nil, ref.Arr(ref.Int(1))}}
 var c11U2 = c11Universe{"u2", []ref.Value{ref.Int(-1), ref.Float(1.0), ref.Str(""), ref.Str("b"), ref.Bool(false), ref.Arr(), ref.NewMap(ref.Pair{K: ref.Int(1), V: ref.Int(1)})}}
 
+// u3: container keys whose lengths differ by more than one (three-way comparison results beyond -1/0/1 matter)
+var c11U3 = c11Universe{"u3", []ref.Value{ref.Int(1), ref.Str("a"), ref.Arr(), ref.Arr(ref.Int(1), ref.Int(2), ref.Int(3)), ref.Arr(ref.Int(1)),
+	ref.NewMap(), ref.NewMap(ref.Pair{K: ref.Int(1), V: ref.Int(1)}, ref.Pair{K: ref.Int(2), V: ref.Int(2)}, ref.Pair{K: ref.Int(3), V: ref.Int(3)})}}
+
 func c11Univ(name string) *c11Universe {
 	switch name {
+	case "u3":
+		return &c11U3
 	case "u1":
 		return &c11U1
 	case "u2":
@@ -658,7 +664,7 @@ func c11SrcExplore(c *core.Ctx, u *c11Universe, depth int) int {
 
 func runC11(c *core.Ctx) {
 	var bounds []string
-	us := []*c11Universe{&c11U1}
+	us := []*c11Universe{&c11U1, &c11U3}
 	srcDepth := 3
 	if !c.Quick() {
 		us = append(us, &c11U2)
